@@ -1115,7 +1115,7 @@ func genC29(r *simrt.Rand, tier string) any {
 	}
 	if r.Pct(40) {
 		for k := 0; k < 1+r.Int(2); k++ {
-			sc.Stalls = append(sc.Stalls, simfs.Fault{Op: []string{"Lstat", "Stat", "ReadDir", "OpenFile", "Rename", "Remove", "", "File.Stat", "File.ReadAt", "Truncate"}[r.Int(10)], Nth: 1 + r.Int(10), Kind: []string{"stall", "stall_ret"}[r.Int(2)],
+			sc.Stalls = append(sc.Stalls, simfs.Fault{Op: []string{"Lstat", "Stat", "ReadDir", "OpenFile", "Rename", "Remove", "", "File.Stat", "File.ReadAt", "Truncate", "File.Readdir", "File.Readdir"}[r.Int(12)], Nth: 1 + r.Int(10), Kind: []string{"stall", "stall_ret"}[r.Int(2)],
 				Stall: []time.Duration{time.Microsecond, time.Millisecond, 20 * time.Millisecond}[r.Int(3)]})
 		}
 	}
